@@ -193,6 +193,120 @@ func accepted(input string) bool {
 	return err == nil && f != nil
 }
 
+// features counts, for the evidence, which of the situations named by C09 / C19 an accepted input
+// contains (prefix = stream).
+func (r *Result) features(prefix, input string) {
+	frags, ok := parser.VerifFragments(input)
+	if !ok {
+		return
+	}
+	seen := map[string]bool{}
+	lastEnd := -1
+	lines := strings.Split(input, "\n")
+	for i, fr := range frags {
+		sn := fr.Source()
+		if sn.End.Line > sn.Start.Line {
+			seen["multi-line-fragment"] = true
+		}
+		if i > 0 && sn.Start.Line == lastEnd {
+			seen["shared-line"] = true
+		}
+		if i == 0 && sn.Start.Line > 0 {
+			seen["leading-blank"] = true
+		}
+		if i > 0 && sn.Start.Line > lastEnd+2 {
+			seen["multi-blank-gap"] = true
+		}
+		if i > 0 && sn.Start.Line == lastEnd+2 && lastEnd+1 < len(lines) && lines[lastEnd+1] != "" {
+			seen["whitespace-gap-line"] = true
+		}
+		lastEnd = sn.End.Line
+		switch s := fr.(type) {
+		case parser.BlockHeader:
+			if s.Comment != nil {
+				if s.Open {
+					seen["open-header-comment"] = true
+				} else {
+					seen["header-comment"] = true
+				}
+			}
+			if s.Description != nil {
+				seen["header-description"] = true
+			}
+			if len(s.Qualifiers) > 0 {
+				seen["qualifier"] = true
+			}
+			for _, t := range append(append([]parser.TagValue{}, s.Tags...), s.Qualifiers...) {
+				if t.Mark != parser.TagMarkNone {
+					seen["tag-mark"] = true
+				}
+				if t.Value != nil {
+					seen["string-tag"] = true
+				}
+			}
+		case parser.Assignment:
+			if s.Comment != nil {
+				seen["assign-comment"] = true
+			}
+			if s.Append {
+				seen["append"] = true
+			}
+			var walk func(v parser.Value)
+			walk = func(v parser.Value) {
+				tok, arr, isArr := parser.VerifValueParts(v)
+				if isArr {
+					seen["array"] = true
+					if len(arr) == 0 {
+						seen["empty-array"] = true
+					}
+					for _, x := range arr {
+						walk(x)
+					}
+					return
+				}
+				seen["lit-"+Kind(tok.Type)] = true
+				if tok.Type == parser.STRING && strings.ContainsAny(tok.Lit, "\n\t\\\"") {
+					seen["string-needs-escape"] = true
+				}
+				if tok.Type == parser.STRING {
+					for _, c := range tok.Lit {
+						if c >= 0x80 {
+							seen["string-non-ascii"] = true
+						}
+						if c < 0x20 || c == 0x7f || c == 0x200b {
+							seen["string-non-printable"] = true
+						}
+					}
+				}
+				if tok.Type == parser.REGEX && strings.Contains(tok.Lit, "/") {
+					seen["regex-slash"] = true
+				}
+			}
+			walk(s.Value)
+		case parser.Description:
+			if len(s.Tokens) > 1 {
+				seen["multi-line-description"] = true
+			}
+			if descCanon(s.Value) == "" {
+				seen["empty-description"] = true
+			}
+		case parser.Comment:
+			seen["comment-"+Kind(s.Token.Type)] = true
+		case parser.CloseBlock:
+			seen["block"] = true
+		}
+	}
+	if !strings.HasSuffix(input, "\n") {
+		seen["no-final-newline"] = true
+	}
+	if strings.HasSuffix(input, "\n\n") {
+		seen["trailing-blank"] = true
+	}
+	for k := range seen {
+		r.count(prefix + ".feat." + k)
+	}
+}
+
 // ------------------------------------------------------------------ bcl.fmt
 
 // Fmt evaluates op `fmt HEX` and the C09 oracle.
@@ -229,6 +343,7 @@ func Fmt(input string) *Result {
 	}
 	r.Nontrivial = true
 	r.count("fmt.accepted")
+	guard(func() string { r.features("fmt", input); return "" })
 	if ferr != nil {
 		r.fail("fmt-rejects-accepted", "ParseFile accepts the input but Fmt fails: %v", ferr)
 		return r
@@ -434,6 +549,7 @@ func Diff(input string) *Result {
 	}
 	r.Nontrivial = true
 	r.count("diff.fmt-ok")
+	guard(func() string { r.features("diff", input); return "" })
 	if pan != nil {
 		r.fail("diff-panic", "FmtDiffs panicked on a source the formatter accepts: %v", pan)
 		return r
